@@ -77,8 +77,8 @@ theorem second_nodes (C : RTCtx m d m2 reps topLbl sc lbl leqs idToIv ns scs lo 
   cases he : m.rels[i]? with
   | none =>
     have h1 : m.rels.length ≤ i := List.getElem?_eq_none_iff.mp he
-    rw [List.getElem?_eq_none_iff.mpr (by rw [hlen]; exact h1),
-      List.getElem?_eq_none_iff.mpr (by rw [hlen2, C.spec.len, hlen]; exact h1)]
+    rw [List.getElem?_eq_none_iff.mpr (by rw [hlen2, C.spec.len, hlen]; exact h1),
+      List.getElem?_eq_none_iff.mpr (by rw [hlen]; exact h1)]
   | some e =>
     obtain ⟨n, e2, iv, hn, hid, he2, ps, he2iv⟩ := C.at_pos i e he
     obtain ⟨n', hn', a1, a2, a3, a4, a5, a6, a7, a8, a9⟩ := hsh i e he
